@@ -68,7 +68,9 @@ def run(ctx):
                 raise vlib.Broken("generator degenerate: counter %r is zero: %r" % (k, st))
     if state.get("hist_ran"):
         for k in ("hist:elig_services_expected_over_bgp", "hist:ev_node_flag_change",
-                  "hist:stack_histories", "hist:stack_steps_with_same_named_services", "hist:stack_services_expected_over_bgp"):
+                  "hist:stack_histories", "hist:stack_steps_with_same_named_services", "hist:stack_services_expected_over_bgp",
+                  "hist:stack_gen_condition_appears_true", "hist:stack_gen_true_condition_disappears",
+                  "hist:stack_gen_condition_false_to_true", "hist:stack_gen_condition_true_to_false"):
             if st.get(k, 0) == 0:
                 raise vlib.Broken("generator degenerate: counter %r is zero: %r" % (k, st))
 
